@@ -166,8 +166,10 @@ package redisemu
 // ---- value constructors: build fresh RESP values, never touch emulator state
 
 //@ func nativeValueToResp
-//@ trusted recursive conversion of Go values to RESP values; allocation only
+//@ trusted recursive conversion of Go values to RESP values; allocation only (the two ensures restate its string and respValue cases)
 //@ pure
+//@ ensures str: istype(val, string) ==> istype(value.data, respBulkString)
+//@ ensures same: istype(val, respValue) ==> value == unbox(val, respValue)
 
 //@ func redisGlob
 //@ trusted pure matcher over rune slices
